@@ -11,7 +11,7 @@ ANCHORS = ["scores.py:Scores._invert_increasing_function", "scores.py:Scores._th
            "scores.py:Scores.threshold_at_tpr", "scores.py:Scores.threshold_at_fnr", "scores.py:Scores.threshold_at_tnr",
            "scores.py:Scores.threshold_at_fpr", "scores.py:Scores.threshold_at_topr", "scores.py:Scores.threshold_at_tonr"]
 RAISES_ARE_VIOLATIONS = True
-DECIDING = {"M-thr": 50000}
+DECIDING = {"M-thr": 327549}
 THOROUGH_EXTRA = ["W2", "W3"]
 RULE = (
     "Every threshold_at_* call (6 metrics + 6 aliases, 3 methods) is observed by M-thr. For 'linear' calls the monitor evaluates the "
